@@ -91,11 +91,10 @@ def opRead : P String := do
   match cellsPerDirection extent with
   | none => pure s!"hyp=0 model={model} spec=-"
   | some ext =>
-    let lo := [extent.getD 0 0, extent.getD 2 0, extent.getD 4 0]
-    let wf := C07.Spec.gridHyp ext g pfs' cfs && geomExact lo ext g
-    let off := C07.Spec.imageOffset lo g
+    let lo := lowerEnds extent
+    let hyp := C07.Spec.gridHyp ext g pfs' cfs && geomExact lo ext g && shiftExact lo g
     let spec := showContent (C07.Spec.filePointContent lo ext g pfs') (C07.Spec.fileCellContent lo ext g cfs)
-    pure s!"hyp={showBool (wf && !off)} cls={showBool off} model={model} spec={if wf then spec else "-"}"
+    pure s!"hyp={showBool hyp} model={model} spec={if hyp then spec else "-"}"
 
 def pMio : P MioMesh := do
   let dim ← pNat
